@@ -18,10 +18,11 @@ def run(tier):
         vg = ValueGen(t['tree'], rng)
         jobs = []
         for cls, body in all_classes_of(t['tree']):
-            for k in range(2 if quick else 4):
+            for k in range(3 if quick else 5):
                 try:
-                    v = vg.obj(cls, body)
-                    ms = list(obj_mutants(R, vg, cls, body, v))
+                    # the first value has nothing but y-diaeresis in its strings: which of them a serializer sanitises is visible in the bytes
+                    v = vg.obj(cls, body) if k else vg.obj_ff(cls, body)
+                    ms = list(obj_mutants(R, vg, cls, body, v)) if k else []
                 except Exception as ex:
                     C.harness_failure('value-generation', f"{t['name']} {cls}: {type(ex).__name__}: {ex}")
                     continue
